@@ -47,6 +47,23 @@ def plan(tier, seed):
     return specs
 
 
+def asan_plan(tier):
+    """The part of the workload repeated under AddressSanitizer (no scaling / nesting families: time and stack depth of an
+    instrumented build say nothing about the real one)."""
+    k = 1 if tier == "quick" else 10
+    specs = []
+    for i in range(16):
+        specs.append(("soup-random", 60 * k, 100 + i))
+        specs.append(("mutation", 60 * k, 100 + i))
+    specs += [("typeforms", i, 8 if tier == "quick" else 2) for i in range(2)]
+    specs.append(("cycles-chains",))
+    specs += [("doc-product", i, 64 if tier == "quick" else 8) for i in range(8)]
+    specs.append(("variants", 0))
+    specs += [("multifile", 40 * k, 100 + i) for i in range(8)]
+    specs += [("valid-programs", 25 * k, i) for i in range(16)]
+    return specs
+
+
 class Screen:
     """Runs cases in-process, then re-executes the interesting ones through the binary."""
 
@@ -57,11 +74,16 @@ class Screen:
         os.makedirs(self.dir, exist_ok=True)
         self.n = 0
         self.bin_budget_clean = 400 if ctx.tier == "quick" else 4000
+        # sanitizer pass: only memory-error reports and crashes are verdicts (the instrumented build is slower and larger,
+        # so CPU / RSS observations mean nothing), and the worker also dumps and walks the whole AST so that every
+        # OwnedPtr / WeakPtr reachable from the result is dereferenced under the sanitizer
+        self.asan = ctx.profile == "asan"
+        self.want = ["codes", "ast", "visit"] if self.asan else ["codes"]
 
     def run(self, cases, sample_rate=0.02):
         """cases: list of {"files": [text...], "defines": [...], "malformed": bool|None, "key": ...}"""
         ctx = self.ctx
-        reqs = [{"op": "compile", "files": c["files"], "defines": c.get("defines", []), "want": ["codes"]} for c in cases]
+        reqs = [{"op": "compile", "files": c["files"], "defines": c.get("defines", []), "want": self.want} for c in cases]
         resps = ctx.worker.batch(reqs)
         rng = ctx.rng("screen/" + self.family)
         for c, r in zip(cases, resps):
@@ -70,7 +92,7 @@ class Screen:
                           nontrivial=size > 0)
             ctx.stats["inproc_cases"] += 1
             crashed = "died" in r or bool(r.get("panic"))
-            slow = (not crashed) and r.get("cpu_us", 0) > 2_000_000
+            slow = (not crashed) and r.get("cpu_us", 0) > 2_000_000 and not self.asan
             clean = (not crashed) and not r.get("has_errors", True)
             if clean:
                 ctx.stats["inproc_error_free"] += 1
@@ -114,9 +136,10 @@ class Screen:
         ctx.stats["binary_runs"] += 1
         replay = {"kind": "binary", "argv": argv, "files": dict(zip(names, c["files"])), "family": self.family,
                   "observed": res.brief(), "inproc": {k: r.get(k) for k in ("panic", "died", "cpu_us", "has_errors")},
+                  "profile": ctx.profile,
                   "how_to": "write the files, then: slicec " + " ".join(argv)}
         if res.timed_out:
-            if res.cpu_s > core.CPU_BOUND_S and size <= MAX_INPUT:
+            if res.cpu_s > core.CPU_BOUND_S and size <= MAX_INPUT and not self.asan:
                 ctx.violate("cpu-bound:" + c.get("sig", self.family), "input of %d bytes used %.1f s CPU (bound %.0f s) and was "
                             "still running" % (size, res.cpu_s, core.CPU_BOUND_S), replay)
             else:
@@ -129,18 +152,20 @@ class Screen:
             ctx.stats["binary_crashes"] += 1
             ctx.violate(sig, "slicec %s on %d bytes of input (%s): %s" % (crash, size, self.family, p["message"][:160]), replay)
             return
-        if size <= MAX_INPUT and res.cpu_s > core.CPU_BOUND_S:
+        if size <= MAX_INPUT and res.cpu_s > core.CPU_BOUND_S and not self.asan:
             ctx.violate("cpu-bound:" + c.get("sig", self.family), "input of %d bytes took %.1f s CPU (bound %.0f s)"
                         % (size, res.cpu_s, core.CPU_BOUND_S), replay)
             return
-        if res.maxrss_kb > core.RSS_BOUND_KB and size <= MAX_INPUT:
+        if res.maxrss_kb > core.RSS_BOUND_KB and size <= MAX_INPUT and not self.asan:
             ctx.violate("rss-bound:" + c.get("sig", self.family), "input of %d bytes needed %d MiB" % (size, res.maxrss_kb // 1024), replay)
             return
         if crashed:
             # the library crashed but the binary did not reproduce it: still a violation of "compilation never panics"
-            p = r.get("panic") or {"message": "worker " + r["died"], "location": "?"}
+            p = r.get("panic") or core.stderr_panic(r.get("stderr_tail", "").encode()) or {"message": "worker " + r["died"], "location": "?"}
             replay["kind"] = "library"
-            ctx.violate(core.panic_signature(p) if r.get("panic") else "crash:library:" + self.family,
+            if r.get("stderr_tail"):
+                replay["worker_stderr_tail"] = r["stderr_tail"][-4000:]
+            ctx.violate(core.panic_signature(p) if p["location"] != "?" else "crash:library:" + self.family,
                         "compile_from_strings crashed (not reproduced through the binary): %s" % p, replay)
             return
         # exit status must agree with the presence of errors
@@ -244,6 +269,22 @@ def run_shard(ctx, spec):
     elif kind == "cmdline":
         _, idx, n = spec
         cmdline_family(ctx, idx, n)
+    elif kind == "valid-programs":
+        # model-generated valid multi-file programs: the only family in which patching, validation, conversion and
+        # encoding all run to the end on rich ASTs
+        from ..slicegen import gen as sgen, printer as sprinter
+        import random as _random
+        _, count, idx = spec
+        rng = ctx.rng("valid/%d" % idx)
+        batch = []
+        for _ in range(count):
+            prog = sgen.valid_program(_random.Random(rng.random()), max_files=3, type_depth=3)
+            sgen.add_comments(prog, _random.Random(rng.random()), density=0.5)
+            texts = sprinter.print_program(prog, [sprinter.Layout(_random.Random(rng.random()), "random") for _ in prog.files])
+            batch.append({"files": texts})
+        scr.bin_budget_clean = len(batch)
+        scr.run(batch, sample_rate=1.0)
+        ctx.stats["valid_model_programs"] += len(batch)
     elif kind == "multifile":
         _, count, idx = spec
         rng = ctx.rng("multi/%d" % idx)
@@ -370,16 +411,41 @@ def main(tier, seed):
         run.evaluations += run2.evaluations
         run.nontrivial |= run2.nontrivial
         run.errors.extend(run2.errors)
+    # AddressSanitizer pass: the AST is a graph of OwnedPtr / WeakPtr (raw pointers dereferenced in unsafe code); a dangling one
+    # is a crash that an uninstrumented run may not show. Both the worker (which walks every pointer of the result) and
+    # the real binary (converter + encoder + generator pipe) run instrumented.
+    asan = build.build_asan(("slicec", "vh"))
+    os.environ["ASAN_OPTIONS"] = build.ASAN_OPTIONS
+    errdir = os.path.join(core.scratch_root(), "asan-stderr")
+    os.makedirs(errdir, exist_ok=True)
+    os.environ["VERIF_WORKER_STDERR_DIR"] = errdir
+    try:
+        run3 = core.run_shards(__name__, PROP, "quick" if tier == "quick" else "thorough", seed + 2000, asan, asan_plan(tier), profile="asan")
+    finally:
+        os.environ.pop("ASAN_OPTIONS", None)
+        os.environ.pop("VERIF_WORKER_STDERR_DIR", None)
+    run.stats.update({"asan." + k: v for k, v in run3.stats.items()})
+    for v in run3.violations:
+        v["what"] = "[AddressSanitizer build] " + v["what"]
+    run.violations.extend(run3.violations)
+    run.evaluations += run3.evaluations
+    run.nontrivial |= run3.nontrivial
+    run.errors.extend(run3.errors)
+    run.inconclusive.extend(run3.inconclusive)
     return core.finish(
         run, "exploration",
         rule=("cases = input file sets (and argv vectors). Families: token soups over the full token alphabet (%d tokens; exhaustive "
               "for length <= %d, each also after `module M`; random length 4-60), byte/char/token mutations of valid programs, every "
               "type form in every type position, cycles and long chains, nesting to the 8 KiB cap, scaling families (CPU-time curve "
               "per size, through the binary), doc comments with mixed-width Unicode indentation, CRLF/tab/BOM/NUL variants, command-"
-              "line value combinations incl. empty strings, multi-file sets. distinct_nontrivial = distinct non-empty inputs"
+              "line value combinations incl. empty strings, multi-file sets. A sample of the soup, mutation, type-form, cycle, doc-comment, "
+              "variant and multi-file families plus model-generated valid programs is repeated under AddressSanitizer builds of the "
+              "worker (which dereferences every pointer of the resulting AST) and of the binary (counters prefixed asan.). "
+              "distinct_nontrivial = distinct non-empty inputs"
               % (len(fam.TOKENS), 2 if tier == "quick" else 3)),
         required={"inproc_cases": 5000, "binary_runs": 500, "inproc_error_free": 50, "typeform_position_pairs": 300,
-                  "scaling_instances": 20, "cmdline_runs": 300, "doc_indentation_cases": 100, "doc_product_cases": 1000},
+                  "scaling_instances": 20, "cmdline_runs": 300, "doc_indentation_cases": 100, "doc_product_cases": 1000,
+                  "asan.inproc_cases": 1500, "asan.binary_runs": 300, "asan.valid_model_programs": 200},
         assumptions=["the time bound is decided on CPU time (rusage / thread clock), never on wall-clock; a watchdog firing below the "
                      "bound is inconclusive", "'grows gently' is only decided as the stated hard bound: 20 s CPU for <= 8 KiB"],
         exhaustive=True,
